@@ -296,6 +296,22 @@ def run(ctx):
     # one deliberate absurd table size: the allocator refuses (allocator_may_return_null=1), flatcc's checkmem() prints
     # "out of memory, aborting" and calls exit(1) - its allocation-failure policy, recorded as a note, not judged (see assumptions)
     add_buf('oom_policy', valid_texts[0], opts='cgen_reader=1,vt_max_count=-1', gen=2)
+    # ---- 4e: identifiers whose length is len(keyword) + 256 and that start / end like the keyword (one byte length tag in the lexer):
+    #      they are identifiers, so these schemas name unknown types / are otherwise valid
+    for kw in ('int', 'long', 'ubyte', 'string', 'bool', 'double'):
+        ident = kw + 'y' * 255 + kw[-1]
+        add_buf('invalid_rule:long_ident_keyword', 'table T { a:%s; }\n' % ident, 'reject', opts='cgen_reader=1', gen=2)
+        add_buf('invalid_rule:long_ident_keyword', 'table T { a:[%s]; }\n' % ident, 'reject', opts='bgen_bfbs=1', gen=2)
+    for kw in ('table', 'struct', 'enum', 'union', 'namespace', 'include', 'attribute', 'root_type', 'rpc_service', 'true', 'null'):
+        ident = kw + 'y' * 255 + kw[-1]
+        add_buf('long_ident_keyword_name', 'table %s { %s:int; }\n' % (ident.capitalize(), ident), None, opts='-', gen=2)
+        add_buf('long_ident_keyword_name', 'table T { %s:int; }\n' % ident, 'accept', opts='-', gen=2)
+    # ---- 4f: empty doc comments, null options
+    for t in ('/**/table T { a:int; }\n/* x */', '/**/', '/**/ struct S { /**/ a:int; /**/ }\n', 'table T { a:int; } /**/\n/**/', '/*/ table T { a:int; } */', '/**', '/***/table T { a:int; }'):
+        for o in (GEN_SETS[2], 'bgen_bfbs=1'):
+            add_buf('stress:empty_doc_comment', t, opts=o, gen=2)
+    for t in (valid_texts[0], 'table T { a:int }', ''):
+        add_buf('null_options', t, opts='NULLOPTS', gen=2)
     # ---- 5: random bytes / token soup
     for _ in range(4000 if T else 1000):
         k = rng.random()
